@@ -243,7 +243,8 @@ class TrioConn:
         self.log.add("ceof", conn=self.cid)
         self.stream.feed_eof()
 
-    def reset(self) -> None:
+    def reset(self, how: str = "reset") -> None:
+        # (trio reports every such loss as BrokenResourceError: `how` matters on asyncio only)
         self.peer_lost = True
         self.log.add("creset", conn=self.cid)
         self.stream.peer_reset()
